@@ -11,8 +11,9 @@ From H2V Require Import Base.Tac Base.Bytes Model.StreamState Ref.Rfc9113Stream 
 Local Open Scope N_scope.
 
 (* send_reset(code): nothing when the stream is reset already; no RST_STREAM when it had closed cleanly and is flushed;
-   else exactly one RST_STREAM with the caller's code - queued after the HEADERS of a stream that is not opened yet,
-   else alone, that stream's own queued frames discarded; no other record changes; nothing goes to the codec here *)
+   else exactly one RST_STREAM with the caller's code - queued after the HEADERS (the first queued frame) of a stream
+   that is not opened yet (what was queued behind them is discarded, repair a052906), else alone, that stream's own
+   queued frames discarded; no other record changes; nothing goes to the codec here *)
 Theorem C17_wire_explicit_reset :
   forall st k code can st' outs r,
   kget st k = Some r -> no_push (s_q r) = true -> step st (LSendReset k code can) = Ok st' outs ->
@@ -24,8 +25,8 @@ Theorem C17_wire_explicit_reset :
      s_state r' = Closed (CError (EReset (s_id r) code User)) /\
      (closed_full r = true -> queued_all outs = [] /\ s_q r' = []) /\
      (closed_full r = false ->
-        queued_all outs = [(s_id r, QReset code)] /\ s_infl r' = (if s_popen r then s_infl r else None) /\
-        s_q r' = (if s_popen r then s_q r ++ [QReset code] else [QReset code]))).
+        queued_all outs = [(s_id r, QReset code)] /\ s_infl r' = None /\
+        s_q r' = (if s_popen r then firstn 1 (s_q r) ++ [QReset code] else [QReset code]))).
 Proof. exact explicit_reset. Qed.
 
 (* the last handle is dropped: nothing if the stream has finished; else a reset is scheduled - CANCEL, or NO_ERROR for a
